@@ -105,6 +105,11 @@ def _xv_value(kind, enc, version=0):
         import xarray as xr
         return xr.Dataset({"v": ((), num), "w": (("t",), [num + 1.0, num + 2.0])},
                           coords={"t": [10, 20]})
+    if kind == "dataset_nd":
+        # a coordinate that is not a dimension and depends on the arguments
+        import xarray as xr
+        return xr.Dataset({"v": ((), num), "w": (("t",), [num + 1.0, num + 2.0])},
+                          coords={"t": [10, 20], "norm": num + 0.25})
     if kind == "dataset_tv":
         # the internal coordinate's labels depend on the arguments (same
         # length, other values)
